@@ -552,6 +552,15 @@ pub fn run(rng: &mut Rng, n: usize, slice: usize, nslices: usize, thorough: bool
     for _ in 0..n {
         let (faces, nv) = random_mesh(rng);
         case("topo.case", "c12.library_call_panics", || check_mesh(&faces, nv, rng, 4));
+        // the same connectivity on vertex ids far up the id space (ids straddling and beyond 2^16,
+        // 2^17, 2^20): nothing in the edge table may depend on the ids being small
+        if rng.chance(0.04) {
+            let off = *rng.pick(&[65_530u32, 65_536, 70_000, 131_070, 200_000, 1_048_570]);
+            let stride = *rng.pick(&[1u32, 1, 7]);
+            let big: Vec<[u32; 3]> = faces.iter().map(|f| [f[0] * stride + off, f[1] * stride + off, f[2] * stride + off]).collect();
+            let nvb = (nv as u32 * stride + off) as usize + 1;
+            case("topo.case", "c12.library_call_panics", || check_mesh(&big, nvb, rng, 2));
+        }
         case("topo.case", "c12.library_call_panics", || voxels(rng));
         case("topo.case", "c12.library_call_panics", || chains(rng));
         case("topo.case", "c12.library_call_panics", || generators(rng));
